@@ -115,3 +115,12 @@ def item_key(it):
 
 def items_multiset(res):
     return sorted(item_key(i) for i in res.get('items', []))
+
+
+def init_canon(binary):
+    """canonical token strings (as the driver prints them) of the trait paths"""
+    from . import catalog as K
+    names = sorted(K.TRAIT_SRC)
+    for n, c in zip(names, retokenise(binary, [K.TRAIT_SRC[n] for n in names])):
+        K.TRAIT_PATH[n] = c
+    return K.TRAIT_PATH
